@@ -29,7 +29,7 @@ def step (r : Reg) (toks : List String) : Reg × String :=
   match toks with
   | "getpipes" :: names =>
     let order := names.map (fun n => (⟨unhex n, [], []⟩ : Pipe))
-    (r, hexList ((getPipes Logrange.Generated.C19.getPipesIncrementsCnt order).map (·.name)))
+    (r, hexList ((getPipesShape Logrange.Generated.C19.getPipesLibrarySort Logrange.Generated.C19.getPipesIncrementsCnt order).map (·.name)))
   | "spec.sorted" :: names => (r, hexList (sortBytes (names.map unhex)))
   | ["reset"] => ([], "ok")
   | ["create", n, t, f, ok] =>
@@ -42,7 +42,7 @@ def step (r : Reg) (toks : List String) : Reg × String :=
     match optInt lim, optInt offs with
     | some l, some o =>
       -- the listing of the current registry; the registry list is in reverse insertion order, any order does
-      let names := (getPipes Logrange.Generated.C19.getPipesIncrementsCnt r).map (·.name)
+      let names := (getPipesShape Logrange.Generated.C19.getPipesLibrarySort Logrange.Generated.C19.getPipesIncrementsCnt r).map (·.name)
       (match showPipes names l o with
        | none => (r, "rej")
        | some ns => (r, if ns.isEmpty then s!"ok {names.length}" else s!"ok {names.length} {hexList ns}"))
